@@ -149,6 +149,28 @@ fn build(tier: Tier) -> Box<dyn Check> {
             format!("{}{}{}say x {} y {} z\n", ctor(a, "x"), ctor(b, "y"), ctor(c, "z"), s1, s2)
         }),
     ));
+    if tier == Tier::Thorough {
+        // depth-3 chains over U_small^4 with 8 operators
+        let o8: Space<usize> = Space::of(vec![0, 1, 2, 3, 4, 5, 7, 9]);
+        let o3 = o8.product(&o8, |a, b| (a, b)).product(&o8, |(a, b), c| (a, b, c));
+        let t4 = us.product(&us, |a, b| (a, b)).product(&us, |(a, b), c| (a, b, c)).product(&us, |(a, b, c), d| (a, b, c, d));
+        fams.push((
+            "nest3".into(),
+            o3.product(&t4, |(p, q, r), (a, b, c, d)| {
+                let sym = |o: usize| match BINOPS[o].0 {
+                    "gt" => ">",
+                    "eq" => "is",
+                    _ => BINOPS[o].1,
+                };
+                // keep `is` out of chains with `>` (the two comparison families do not mix)
+                let ops = [p, q, r];
+                let has_is = ops.iter().any(|o| BINOPS[*o].0 == "eq");
+                let has_gt = ops.iter().any(|o| BINOPS[*o].0 == "gt");
+                let sp = |o: usize| if has_is && has_gt && BINOPS[o].0 == "eq" { "isnt" } else { sym(o) };
+                format!("{}{}{}put 5 into u\nsay x {} y {} z {} u\n", ctor(a, "x"), ctor(b, "y"), ctor(c, "z"), sp(p), sp(q), sp(r)).replace("put 5 into u\n", &ctor(d, "u"))
+            }),
+        ));
+    }
     // 9. direct Val-level cells (marker text: handled specially)
     let val_ops: Space<&'static str> = Space::of(vec!["plus", "subtract", "multiply", "divide", "equals", "compare"]);
     fams.push(("val-api".into(), val_ops.product(&pairs, |o, (a, b)| format!("VAL {} {} {}", o, a, b))));
